@@ -106,6 +106,31 @@ fn real_main(args: &[String]) -> i32 {
                 _ => 2,
             }
         }
+        "hashes" => {
+            // `sim hashes <id> <n>`: per-stream trace hashes of the first n scenario streams
+            let ctx = match ctx_from_env(Tier::Quick) {
+                Ok(c) => c,
+                Err(_) => return 2,
+            };
+            let id = args.get(2).cloned().unwrap_or_default();
+            let n: u64 = args.get(3).and_then(|s| s.parse().ok()).unwrap_or(64);
+            let ps = props();
+            let p = match ps.iter().find(|p| p.id() == id) {
+                Some(p) => p,
+                None => return 2,
+            };
+            if let Err(e) = p.prepare(&ctx) {
+                say!("HARNESS: {}", e);
+                return 2;
+            }
+            let agg = framework::run_streams(p.as_ref(), &ctx, 0, n, None);
+            p.finish(&ctx);
+            for (i, h) in &agg.trace_hashes {
+                say!("{} {:016x}", i, h);
+            }
+            0
+        }
+        "selftest" => selftest(),
         "replay" => {
             let path = match args.get(2) {
                 Some(p) => p.clone(),
@@ -126,5 +151,73 @@ fn real_main(args: &[String]) -> i32 {
             eprintln!("usage: sim check <id> [quick|thorough] | sim replay <file>");
             2
         }
+    }
+}
+
+/// Determinism proof: for several VERIF_SEED values, every property's first N scenario streams
+/// are executed in separate processes at worker counts 1 and 16 (and a second time at 16) and the
+/// per-stream trace hashes (journals, decisions, results, report bytes) are compared.
+fn selftest() -> i32 {
+    let exe = match std::env::current_exe() {
+        Ok(e) => e,
+        Err(_) => return 2,
+    };
+    let n: u64 = std::env::var("SELFTEST_STREAMS")
+        .ok()
+        .and_then(|s| s.parse().ok())
+        .unwrap_or(300);
+    let seeds: Vec<u64> = vec![DEFAULT_SEED, 1, 2, 3, 7, 1234567];
+    let ids: Vec<&'static str> = props().iter().map(|p| p.id()).collect();
+    let mut bad = 0;
+    let mut compared = 0u64;
+    for seed in &seeds {
+        for id in &ids {
+            let streams = if *id == "C15" { n.min(40) } else { n };
+            let run = |workers: &str| -> Option<String> {
+                let o = std::process::Command::new(&exe)
+                    .arg("hashes")
+                    .arg(id)
+                    .arg(streams.to_string())
+                    .env("VERIF_SEED", seed.to_string())
+                    .env("VERIF_WORKERS", workers)
+                    .output()
+                    .ok()?;
+                if !o.status.success() {
+                    return None;
+                }
+                Some(String::from_utf8_lossy(&o.stdout).to_string())
+            };
+            let a = run("1");
+            let b = run("16");
+            let c = run("16");
+            match (a, b, c) {
+                (Some(a), Some(b), Some(c)) => {
+                    compared += 3 * streams;
+                    if a != b || b != c {
+                        bad += 1;
+                        let diff = a
+                            .lines()
+                            .zip(b.lines().zip(c.lines()))
+                            .filter(|(x, (y, z))| x != y || y != z)
+                            .take(3)
+                            .map(|(x, _)| x.to_string())
+                            .collect::<Vec<_>>();
+                        say!("selftest: {} seed {} NOT deterministic, e.g. streams {:?}", id, seed, diff);
+                    } else {
+                        say!("selftest: {} seed {}: {} streams identical at 1 worker, 16 workers, 16 workers again", id, seed, streams);
+                    }
+                }
+                _ => {
+                    bad += 1;
+                    say!("selftest: {} seed {}: a hashes process failed", id, seed);
+                }
+            }
+        }
+    }
+    say!("selftest: {} stream executions compared, {} property/seed pairs differ", compared, bad);
+    if bad == 0 {
+        0
+    } else {
+        2
     }
 }
